@@ -193,15 +193,25 @@ package hybridbuffer
 
 // "Accepting a chunk never blocks on a stalled consumer": every channel operation in Accept is a select with default.
 // The accepted chunk is enqueued, or dropped and counted — exactly one of the two.
+// "only a fixed number of chunks stay in memory": once the in-memory window towards the consumers is half full
+// (lastnumout: ghost - what NumOutput reported), a chunk is enqueued unloaded (its data on disk) or not at all
+//@ ghost var lastnumout int
+//@ func (feeder *outputFeeder) NumOutput() int
+//@   requires feeder != nil
+//@   modifies lastnumout
+//@   ghostset lastnumout := result
+//@   ensures lastnumout == result && result >= 0
 //@ func (buf *bufferer) Accept(chunk base.LogChunk)
 //@   flag nonblocking
-//@   requires validbuf(buf) && len(chunk.Data) < 4611686018427387904
+//@   requires validbuf(buf) && len(chunk.Data) < 4611686018427387904 && !chunk.Saved
 //@   modifies everything
 //@   preserves bufferer.*, outputFeeder.*, chunkManager.*, chunkOperator.*, chunkManagerMetrics.*, chunkOperatorMetrics.*, bufferMetrics.*
 //@   ensures[enqueued-or-counted-as-dropped] (nsent(buf.inputChannel) == old(nsent(buf.inputChannel)) + 1 && mdropped(&buf.chunkMan) == old(mdropped(&buf.chunkMan)))
 //@        || (nsent(buf.inputChannel) == old(nsent(buf.inputChannel)) && mdropped(&buf.chunkMan) == old(mdropped(&buf.chunkMan)) + 1)
 //@   ensures[balance] bal(&buf.chunkMan) == old(bal(&buf.chunkMan))
 //@   ensures[counted-as-input] minput(&buf.chunkMan) == old(minput(&buf.chunkMan)) + 1
+//@   ensures[spilled-when-the-memory-window-is-half-full] lastnumout >= defs.BufferMaxNumChunksInMemory / 2 && nsent(buf.inputChannel) == old(nsent(buf.inputChannel)) + 1 ==> cur(chunk).Data == nil && cur(chunk).Saved
+//@   ensures[kept-in-memory-otherwise] lastnumout < defs.BufferMaxNumChunksInMemory / 2 ==> cur(chunk).Data === chunk.Data
 
 // recovery enqueues without blocking, in scan order, and counts every recovered chunk as (persistent) input
 //@ func (buf *bufferer) recoverExistingChunks()
